@@ -321,13 +321,14 @@ def run(ctx):
             for pmode in ("none", "cli", "cfg", "both"):
                 jobs.append((sep, et, em, pmode, None))
         jobs.append((sep, False, False, "cli-sep", None))     # a prefix that itself ends with the separator
-    for headers in (["^", "*"], ["="]):
+    # (a letter and a non-ASCII box character as first entry: "the first configured header character", whatever it is)
+    for headers in (["^", "*"], ["="], ["\u2550", "="], ["o", "-"]):
         for sep in (SEPS[:2] if quick else SEPS):
             jobs.append((sep, False, True, "none", headers))
     ctx.sweep(run_config, jobs, space="spellings x prefix x separator x extension flags x headers", selftest=2, chunk=1)
     mjobs = [(sep, pm, et, em) for sep in (SEPS[:2] if quick else SEPS) for pm in ("none", "cli")
              for et, em in ((False, False), (True, False), (False, True))]
-    mjobs += [(sep, "none", False, False, hdr) for sep in SEPS[:2] for hdr in (("=", "-", "~"), ("^", "*"))]
+    mjobs += [(sep, "none", False, False, hdr) for sep in SEPS[:2] for hdr in (("=", "-", "~"), ("^", "*"), ("\u2550", "="), ("o", "-"))]
     ctx.sweep(run_modules, mjobs, space="module doccomments", selftest=1, chunk=1)
     ctx.cov["bounds"] = {"files": FILES, "separators": SEPS, "dir_spellings": [s[0] for s in DIR_SPELLINGS],
                          "file_spellings": [s[0] for s in FILE_SPELLINGS], "module_variants": len(MOD_NAMES) * 3 * 7 * 3}
